@@ -48,9 +48,9 @@ CHECKS = {
         technique="bounded native check of a relational contract on compile_code (stand-in; the verifier cannot reach the astroid walkers)"),
     "C05": dict(
         category="exploration",
-        text="The label -> line-number loop of remove_labels (cut out of the real method on every run) is proved for texts of every length: the label-free text is exactly the non-label lines in order, every dropped label is mapped, and its number is the index of the first instruction line after its definition (loop invariant, ghost defining line, two lemmas; str operations as uninterpreted functions named after the operation). The substitution phase is regular-expression rewriting of text (outside SMT reach): bounded contract - every target resolves to one definition and the label-free output equals the token-wise substitution spec, on generated single- and multi-module programs.",
-        design_ref="6.C05, 12.11", note="Level stays 'exploration' because the substitution phase and remove_unused_labels are bounded only; the proved obligations are listed separately in the evidence. Trusted: the token-wise substitution spec (bounded/props.py), machine tokeniser.",
-        technique=TECH + " (loop contract on the label map of remove_labels); bounded native contract check (stand-in) for the regular-expression phase and compile_code"),
+        text="The label -> line-number loop of remove_labels (cut out of the real method on every run) is proved for texts of every length: the label-free text is exactly the non-label lines in order, every dropped label is mapped, and its number is the index of the first instruction line after its definition (loop invariant, ghost defining line, two lemmas; str operations as uninterpreted functions named after the operation). remove_unused_labels (all three loops, cut out of the real function) is proved never to remove a label that some line has among its tokens and to keep every other line in order. The substitution phase of remove_labels is regular-expression rewriting of text (outside SMT reach): bounded contract - every target resolves to one definition and the label-free output equals the token-wise substitution spec, on generated single- and multi-module programs.",
+        design_ref="6.C05, 12.11", note="Level stays 'exploration' because the substitution phase of remove_labels and label naming in the code generator are bounded only; the proved obligations are listed separately in the evidence. Trusted: the token-wise substitution spec (bounded/props.py), machine tokeniser.",
+        technique=TECH + " (loop contracts on the label map of remove_labels and on remove_unused_labels); bounded native contract check (stand-in) for the regular-expression phase and compile_code"),
     "C06": dict(
         category="exploration",
         text="Shadow call stack on the reference machine: every executed return goes to the line after the call being served, the stack pointer at top-level yields is constant, effects agree with the source, for generated call graphs under both conventions, inlining and tail calls.",
